@@ -704,7 +704,11 @@ def run(cx, tier='quick'):
     rep.floor('SUM-DEBUG', 30, '(37 cases today)')
     rep.assumptions += ['core::fmt::DebugStruct/DebugTuple/DebugMap render the call sequence as documented, in compact and alternate mode',
                         '#[derive(Debug)] is specified as debug_struct(Name).field("f", &self.f)… / debug_tuple(Name).field(&self.0)… / write_str(Variant)',
-                        'union Debug is covered by C20']
+                        'union Debug (byte-wise, `unsafe`-gated) is specified by C20; its summary is evaluated here as well']
+    # the union generator of this trait (byte-wise, SUM-UNION of C20) is part of this trait's derive too
+    from . import c20 as _c20
+    from ..facts import Facts as _Fu
+    _c20.check_debug(cx, rep, _Fu(cx))
     rep.not_decided += ['stringify! of raw identifiers (excluded by the property)']
     from .binders import check_binder_injectivity
     check_binder_injectivity(cx, rep, ['::debug::'])
